@@ -16,6 +16,10 @@ if [ -f "$SEED/demo.rs" ]; then
   cargo test --offline --test demo_seed >/tmp/wt/verify_demo_clean.log 2>&1; echo "demo on unchanged tree: exit $? ($(grep -E '^test result' /tmp/wt/verify_demo_clean.log | head -1))"
   rm -f tests/demo_seed.rs
 fi
+pybuild() { PYO3_PYTHON="$(command -v python3)" CARGO_TARGET_DIR=/tmp/wt/verify_target_py cargo build --release --offline --no-default-features --features "python pyo3/extension-module" --lib >/tmp/wt/verify_py_build.log 2>&1 && mkdir -p /tmp/wt/verify_pymod && cp /tmp/wt/verify_target_py/release/libgrex.so /tmp/wt/verify_pymod/grex.so; }
+if [ -f "$SEED/demo.py" ]; then
+  pybuild && { python3 "$SEED/demo.py" /tmp/wt/verify_pymod >/tmp/wt/verify_demo_clean.log 2>&1; echo "demo.py on unchanged tree: exit $? ($(tail -1 /tmp/wt/verify_demo_clean.log | cut -c1-80))"; } || echo "python extension does not build on unchanged tree"
+fi
 if ! git apply --3way "$SEED/patch.diff" 2>/tmp/wt/verify_apply.log; then echo "PATCH DOES NOT APPLY"; cat /tmp/wt/verify_apply.log; exit 1; fi
 git reset -q
 git diff > "$SEED/patch.rebased.diff"
@@ -26,6 +30,9 @@ if [ -f "$SEED/demo.rs" ]; then
   cp "$SEED/demo.rs" tests/demo_seed.rs
   cargo test --offline --test demo_seed >/tmp/wt/verify_demo_mut.log 2>&1; echo "demo with change: exit $? ($(grep -E '^test result' /tmp/wt/verify_demo_mut.log | head -1))"
   rm -f tests/demo_seed.rs
+fi
+if [ -f "$SEED/demo.py" ]; then
+  pybuild && { python3 "$SEED/demo.py" /tmp/wt/verify_pymod >/tmp/wt/verify_demo_mut.log 2>&1; echo "demo.py with change: exit $? ($(tail -1 /tmp/wt/verify_demo_mut.log | cut -c1-80))"; } || echo "python extension does not build with change"
 fi
 } | tee "$SEED/verify.txt"
 if cmp -s "$SEED/patch.diff" "$SEED/patch.rebased.diff"; then rm -f "$SEED/patch.rebased.diff"; else mv "$SEED/patch.rebased.diff" "$SEED/patch.diff"; echo "patch.diff re-based onto current /repo HEAD" | tee -a "$SEED/verify.txt"; fi
